@@ -11,6 +11,8 @@ import Tw.Drv.Util
   also evaluates the C18 merge oracle; the model treats both alike.)
 * `hs <k> <prefix> <suffix> <alphabet> <maxlen>`: the `parse()` of kind `k` on `prefix ++ w ++ suffix`
   for every string `w` over the alphabet up to the length, results hashed.
+* `hp <prefix> <suffix> <alphabet> <maxlen>`: whole datagrams `prefix ++ w ++ suffix` through
+  `parse_response` (+ the kind's `parse()`), results hashed.
 * `hc <k> <prefix> <suffix> <v1,v2,…>`: the count fields jointly swept over the values (every tuple).
 * `mh|mfh <n> <k:hex>×n <maxlen>`: every step sequence over the part indices of length 1..maxlen, in
   lexicographic order per length, each output folded into FNV-1a. -/
@@ -191,8 +193,24 @@ def countHash (k : InfoKind) (pre suf : List UInt8) (vals : List Int) : Option U
       h := fnvByte h 10
   return some h
 
+/-- `hp`: like `hs`, but whole datagrams through `parse_response` (the text of a `p` request) -/
+def sweepParse (pre suf alphabet : List UInt8) (maxLen : Nat) : UInt64 := Id.run do
+  let mut h := fnvOffset
+  let a := alphabet.toArray
+  let n := a.size
+  for len in [0:maxLen + 1] do
+    for c in [0:n ^ len] do
+      let w := (List.range len).map fun j => a.getD ((c / n ^ (len - 1 - j)) % n) 0
+      h := fnvString h (parseLine (pre ++ w ++ suf))
+      h := fnvByte h 10
+  return h
+
 def handle (toks : List String) : String :=
   match toks with
+  | ["hp", pre, suf, alpha, ml] =>
+    match parseHex pre, parseHex suf, parseHex alpha, parseNat ml with
+    | some pre, some suf, some alpha, some ml => s!"h {sweepParse pre suf alpha ml}"
+    | _, _, _, _ => "bad-op"
   | ["hc", k, pre, suf, vals] =>
     match kindOfChar k, parseHex pre, parseHex suf, (vals.splitOn ",").mapM parseInt with
     | some k, some pre, some suf, some vals =>
